@@ -15,7 +15,7 @@ CONSTANTS
   FixDropByChain = TRUE
   Bug = "none"
 INIT Init
-NEXT NextCompact
+NEXT Next
 VIEW view
 INVARIANTS ReadsRight StaleIsError DiskIsOneState FlushNeverRefused OpensAfterRestart CommitDurable CapKeepsBranch CleanCoherent NeverTainted
 CHECK_DEADLOCK FALSE
